@@ -283,6 +283,7 @@ class Super:
                     ret = self._new('ret', cn, func, fc.frame)
                     ret.call = call
                     ret.callee = g
+                    ret.cframe = cfr
                     if is_last_atom:
                         if correlated is None:
                             correlated = {
@@ -292,6 +293,7 @@ class Super:
                         rt.call, rt.callee = call, g
                         rf = self._new('ret', cn, func, fc.frame)
                         rf.call, rf.callee = call, g
+                        rt.cframe = rf.cframe = cfr
                         self._edge(sub.exits['T'], rt.id)
                         self._edge(sub.exits['F'], rf.id)
                         self._edge(rt.id, correlated['T'])
@@ -373,6 +375,16 @@ class Super:
                         new[(id(sn.cframe), p)] = val[k]
             if new is not None:
                 return new
+        # the boolean locals of an activation are dead once it is left
+        # (keeps the number of tracked valuations from multiplying along a
+        # chain of calls)
+        dead = None
+        if sn.kind == 'ret' and sn.cframe is not None:
+            dead = id(sn.cframe)
+        elif sn.kind == 'callee_raise':
+            dead = id(sn.frame)
+        if dead is not None and any(k[0] == dead for k in val):
+            return {k: v for k, v in val.items() if k[0] != dead}
         if sn.kind == 'out' and sn.cn is not None and sn.cn.kind == 'stmt' \
                 and isinstance(sn.cn.ast, ast.Assign):
             a = sn.cn.ast
@@ -447,6 +459,11 @@ class Super:
                 k2 = (d, nst)
                 if k2 in seen.states:
                     continue
+                if len(seen.states) > 3000000:
+                    from .model import AnalysisError
+                    raise AnalysisError(
+                        'path-sensitive search exceeded 3,000,000 states '
+                        '(too many independent boolean locals on one path)')
                 seen.states[k2] = key
                 if d not in seen:
                     seen[d] = n
